@@ -131,7 +131,17 @@ pub fn build(cfg: &StackCfg, dirs: &Dirs, log: Option<CheckLog>) -> Cache {
                 let ix = world::fstat(x.as_raw_fd()).map(|m| m.ino).unwrap_or(0);
                 let iy = world::fstat(y.as_raw_fd()).map(|m| m.ino).unwrap_or(0);
                 log.lock().unwrap().push((ix, iy));
-                kismet_cache::byte_equality_checker(x, y)
+                // an application's own checker: it reads both files to the end, compares, and leaves the two
+                // descriptors wherever it stopped (nothing says a checker has to rewind what it was lent)
+                use std::io::Read;
+                let (mut a, mut b) = (Vec::new(), Vec::new());
+                x.read_to_end(&mut a)?;
+                y.read_to_end(&mut b)?;
+                if a == b {
+                    Ok(())
+                } else {
+                    Err(std::io::Error::new(ErrorKind::Other, "application checker: copies differ"))
+                }
             });
         }
     };
